@@ -98,6 +98,7 @@ sp_ctrsv(char *uplo, char *trans, char *diag, SuperMatrix *L,
     singlecomplex temp;
     singlecomplex alpha = {1.0, 0.0}, beta = {1.0, 0.0};
     singlecomplex comp_zero = {0.0, 0.0};
+    singlecomplex comp_temp;
     int nrow, irow, jcol;
     int fsupc, nsupr, nsupc;
     int_t luptr, istart, i, k, iptr;
@@ -150,8 +151,8 @@ sp_ctrsv(char *uplo, char *trans, char *diag, SuperMatrix *L,
 		    for (iptr=istart+1; iptr < L_SUB_START(fsupc+1); ++iptr) {
 			irow = L_SUB(iptr);
 			++luptr;
-			cc_mult(&comp_zero, &x[fsupc], &Lval[luptr]);
-			c_sub(&x[irow], &x[irow], &comp_zero);
+			cc_mult(&comp_temp, &x[fsupc], &Lval[luptr]);
+			c_sub(&x[irow], &x[irow], &comp_temp);
 		    }
 		} else {
 #ifdef USE_VENDOR_BLAS
@@ -203,8 +204,8 @@ sp_ctrsv(char *uplo, char *trans, char *diag, SuperMatrix *L,
 		    c_div(&x[fsupc], &x[fsupc], &Lval[luptr]);
 		    for (i = U_NZ_START(fsupc); i < U_NZ_START(fsupc+1); ++i) {
 			irow = U_SUB(i);
-			cc_mult(&comp_zero, &x[fsupc], &Uval[i]);
-			c_sub(&x[irow], &x[irow], &comp_zero);
+			cc_mult(&comp_temp, &x[fsupc], &Uval[i]);
+			c_sub(&x[irow], &x[irow], &comp_temp);
 		    }
 		} else {
 #ifdef USE_VENDOR_BLAS
@@ -224,8 +225,8 @@ sp_ctrsv(char *uplo, char *trans, char *diag, SuperMatrix *L,
 		    	for (i = U_NZ_START(jcol); i < U_NZ_START(jcol+1); 
 				i++) {
 			    irow = U_SUB(i);
-			cc_mult(&comp_zero, &x[jcol], &Uval[i]);
-			c_sub(&x[irow], &x[irow], &comp_zero);
+			cc_mult(&comp_temp, &x[jcol], &Uval[i]);
+			c_sub(&x[irow], &x[irow], &comp_temp);
 		    	}
                     }
 		}
@@ -252,8 +253,8 @@ sp_ctrsv(char *uplo, char *trans, char *diag, SuperMatrix *L,
 		    for (i = L_NZ_START(jcol) + nsupc; 
 				i < L_NZ_START(jcol+1); i++) {
 			irow = L_SUB(iptr);
-			cc_mult(&comp_zero, &x[irow], &Lval[i]);
-		    	c_sub(&x[jcol], &x[jcol], &comp_zero);
+			cc_mult(&comp_temp, &x[irow], &Lval[i]);
+		    	c_sub(&x[jcol], &x[jcol], &comp_temp);
 			iptr++;
 		    }
 		}
@@ -286,8 +287,8 @@ sp_ctrsv(char *uplo, char *trans, char *diag, SuperMatrix *L,
 		    solve_ops += 8*(U_NZ_START(jcol+1) - U_NZ_START(jcol));
 		    for (i = U_NZ_START(jcol); i < U_NZ_START(jcol+1); i++) {
 			irow = U_SUB(i);
-			cc_mult(&comp_zero, &x[irow], &Uval[i]);
-		    	c_sub(&x[jcol], &x[jcol], &comp_zero);
+			cc_mult(&comp_temp, &x[irow], &Uval[i]);
+		    	c_sub(&x[jcol], &x[jcol], &comp_temp);
 		    }
 		}
 
@@ -331,8 +332,8 @@ sp_ctrsv(char *uplo, char *trans, char *diag, SuperMatrix *L,
 				i < L_NZ_START(jcol+1); i++) {
 			irow = L_SUB(iptr);
                         cc_conj(&temp, &Lval[i]);
-			cc_mult(&comp_zero, &x[irow], &temp);
-		    	c_sub(&x[jcol], &x[jcol], &comp_zero);
+			cc_mult(&comp_temp, &x[irow], &temp);
+		    	c_sub(&x[jcol], &x[jcol], &comp_temp);
 			iptr++;
 		    }
  		}
@@ -366,8 +367,8 @@ sp_ctrsv(char *uplo, char *trans, char *diag, SuperMatrix *L,
 		    for (i = U_NZ_START(jcol); i < U_NZ_START(jcol+1); i++) {
 			irow = U_SUB(i);
                         cc_conj(&temp, &Uval[i]);
-			cc_mult(&comp_zero, &x[irow], &temp);
-		    	c_sub(&x[jcol], &x[jcol], &comp_zero);
+			cc_mult(&comp_temp, &x[irow], &temp);
+		    	c_sub(&x[jcol], &x[jcol], &comp_temp);
 		    }
 		}
 
